@@ -173,3 +173,7 @@ _extend('C02', 'ADDED (unit I-maint): the per-index maintenance step of INSERT /
 
 _extend('C10', 'ADDED (unit K-replace): REPLACE INTO deletes exactly the stored rows that collide with the new row on the PRIMARY KEY or on a NULL-free UNIQUE key (handle_replace_conflicts: '
         'its match-building head and the conflicts closure, lifted); the delete_where call and the following INSERT are by units K-table / K-pk / K-rowval.')
+
+_extend('C14', 'ADDED (units K-record, K-table): Database::insert_row / insert_rows_batch record one Insert entry per inserted row, in order, only after the insert succeeded; Table::remove_row - the '
+        'undo of an Insert / the first half of the undo of an Update - removes exactly one row equal to the STORED FORM of the recorded row (the log holds rows as handed in, the table '
+        'normalizes them: fix 2308fd7d).')
